@@ -580,6 +580,27 @@ def family_binary(check, tier):
             check.count(('binr', nm, s))
         lib.correspond(check, 'bin_read_' + nm, DT_IMPORTS, 'text * out (list Z)',
                        '(fun c => bout_eqb (%s (fst c)) (snd c))' % cdec, rc, show='(fun c : text * out (list Z) => %s (fst c))' % cdec)
+    # in-lex oracle: every literal lxml accepts as xs:base64Binary (line-wrapped MIME/PEM style, blanks
+    # between the groups) must be read as the bytes it denotes
+    import base64 as _b64
+    for b in blobs[:60]:
+        t = _b64.b64encode(b).decode('ascii')
+        variants = set()
+        for w in (4, 64, 76):
+            variants.add('\n'.join(t[i:i + w] for i in range(0, len(t), w)))
+            variants.add('\r\n'.join(t[i:i + w] for i in range(0, len(t), w)))
+        variants.add(' '.join(t[i:i + 4] for i in range(0, len(t), 4)))
+        variants.add(' ' + t + '\n')
+        variants.add('\t' + t)
+        for v in sorted(variants):
+            if v == t or not xsd_ok('base64Binary', v):
+                continue
+            o = observe(prot.from_unicode, ByteArray, v, BINARY_ENCODING_BASE64)
+            check.count(('binlex', v))
+            if o[0] != 'ok' or b''.join(o[1]) != b:
+                check.fail('C08|ByteArray|in_lex|base64-whitespace',
+                           'xs:base64Binary literal %r (valid per XSD) read as %r instead of %r' % (v[:40], o, b[:16]),
+                           {'text': v, 'bytes': list(b)})
     check.sample({'family': 'binary', 'blobs': [list(b) for b in blobs[1:4]], 'malformed': mal[:8]})
 
 
